@@ -54,6 +54,7 @@ def run(ctx):
     r4(ctx, facts)
     r5_override_chain(ctx, facts)
     r7_threshold_and_filter_setters(ctx, facts)
+    r8_threshold_is_call_time(ctx, facts)
     # two loggers share a formatter only when every option is equal (shared with C12.R7)
     from rules import c12
     from rules.c09 import Renamed as _Ren
@@ -595,6 +596,50 @@ def r5_override_chain(ctx, facts):
                "the constructor hands the override pattern options of its parameter(s) %s on to the base constructor argument that reaches "
                "Sink::%s (reaching: %s)" % ([f.rec["params"][k].get("name") or k for k in bearing], FIELD, sorted(carried(f))), fn=f)
     ctx.floor("C16.R5b", "sink constructors that take override-bearing parameters", n, 6)
+
+
+def r8_threshold_is_call_time(ctx, facts):
+    """R8: the logger's threshold is applied where the statement is made and nowhere else. A statement that passed it at the call is in the
+    queue; code that runs on the backend thread and looked at the logger's *current* level again would discard (or admit) statements by a
+    threshold set after they were made. Who-may-read rule over the resolved program: LoggerBase::log_level is read only through
+    get_log_level / should_log_statement, and no function that can run on the backend thread (roles, DESIGN 3.1) calls either."""
+    import roles as roles_mod
+    from qlib import atomic_op, field_name
+    roles, _pr, croots = roles_mod.infer(facts, "A")
+    if not croots:
+        raise AnalysisBroken("no backend entry point found for the role inference")
+    readers = []     # functions that touch the field directly
+    for f in facts.fns:
+        if f.config != "A":
+            continue
+        for n in f.walk():
+            if n["k"] == "MemberExpr" and n.get("dk") == "Field" and n.get("mname") == "log_level" and "LoggerBase" in (n.get("member") or ""):
+                readers.append(f)
+                break
+    if not readers:
+        raise AnalysisBroken("LoggerBase::log_level is accessed by no function: the threshold field was renamed, the rule has to be re-confirmed")
+    accessors = set(short(f.name) for f in readers)
+    unexpected = sorted(a for a in accessors if not re.search(r"LoggerBase::(get_log_level|set_log_level|LoggerBase)$", a))
+    ctx.ob("C16.R8a", "LoggerBase::log_level:accessors", not unexpected,
+           "the threshold field is touched only by its getter, its setter and the constructor (also by: %s)" % (unexpected or "nothing else"), fn=readers[0])
+    bad = []
+    n_backend = 0
+    for f in facts.fns:
+        if f.config != "A" or "C" not in roles.get(id(f), ()):
+            continue
+        n_backend += 1
+        if re.search(r"LoggerBase::(get_log_level|should_log_statement)$", short(f.name)):
+            # reachable only if something on the backend calls it: reported at the caller below
+            continue
+        for c in f.calls(r"LoggerBase::(get_log_level|should_log_statement)$|LoggerImpl<.*>::should_log_statement$"):
+            bad.append("%s at %s" % (short(f.name).replace("quill::", ""), c.get("loc")))
+        if f in readers and not re.search(r"LoggerBase::", short(f.name)):
+            bad.append("%s reads the field" % short(f.name))
+    ctx.floor("C16.R8", "functions that can run on the backend thread", n_backend, 60)
+    ctx.ob("C16.R8b", "backend:never-consults-the-logger-threshold", not bad,
+           "none of the %d functions that can run on the backend thread asks for the logger's current level: a statement that passed the "
+           "threshold when it was made is not discarded (nor one admitted) by a level set afterwards (%s)" % (n_backend, "; ".join(bad) or "no call site"),
+           fn=croots[0])
 
 
 def r7_threshold_and_filter_setters(ctx, facts):
